@@ -446,6 +446,10 @@ var NameShapes = []struct{ ID, Name string }{
 	{"quote", `a"b`}, {"backslash", `a\b`}, {"space", "a b"}, {"brace", "a}"}, {"underscore-only", "_"}, {"upper", "NAME"},
 	{"snake-digit", "x_rate_10"}, {"kebab-digit", "x-rate-10"},
 	{"body", "body"}, {"code", "code"}, {"headers", "headers"}, {"path", "path"}, {"query", "query"},
+	// words goag itself uses when it names nested types
+	{"item", "item"}, {"items", "items"}, {"additional-properties", "additionalProperties"}, {"one-of-0", "oneOf0"}, {"json-body", "JSONBody"},
+	// characters that are ordinary in query parameter names
+	{"dollar", "$top"}, {"brackets", "filter[status]"}, {"brackets-empty", "ids[]"},
 }
 
 var NamePositions = []struct {
@@ -479,6 +483,18 @@ var NamePositions = []struct {
 		deep := &Schema{Type: "object", Properties: map[string]*Schema{"q": {Type: "integer"}, "inner_b": {Type: "object", Properties: map[string]*Schema{"c": {Type: "object", Properties: map[string]*Schema{"d": {Type: "integer"}}}}}}}
 		o := opAt(d, "/x", "PUT")
 		o.RequestBody = &RequestBody{Content: JSONContent(&Schema{Type: "object", Properties: map[string]*Schema{name: deep}})}
+	}},
+	{"array-item-object-with-inline-object-property", func(d *Doc, name string) {
+		// an array of inline objects one of whose properties (the named one) is an inline object
+		item := &Schema{Type: "object", Properties: map[string]*Schema{name: objAB(), "quantity": {Type: "integer"}}}
+		addComp(d, "Holder", &Schema{Type: "object", Properties: map[string]*Schema{"lines": {Type: "array", Items: item}}})
+		opAt(d, "/x", "GET")
+	}},
+	{"map-value-object-with-inline-object-property", func(d *Doc, name string) {
+		val := &Schema{Type: "object", Properties: map[string]*Schema{name: objAB(), "quantity": {Type: "integer"}}}
+		addComp(d, "ValueObj", val)
+		addComp(d, "Holder", &Schema{Type: "object", Properties: map[string]*Schema{"byKey": {Type: "object", AdditionalProperties: &AddProps{Schema: &Schema{Ref: RefSchemas + "ValueObj"}}}}})
+		opAt(d, "/x", "GET")
 	}},
 	{"query", func(d *Doc, name string) {
 		opAt(d, "/x", "GET").Parameters = []*Parameter{{Name: name, In: "query", Schema: &Schema{Type: "integer"}}}
@@ -734,6 +750,31 @@ func OperationRows() []Row {
 		opAt(d, "/x", "GET").Responses = map[string]*Response{"200": {Description: Str("")}, "404": {Ref: RefResponses + "NotFound"}}
 		opAt(d, "/y", "GET").Responses = map[string]*Response{"404": {Ref: RefResponses + "Alias"}}
 	})
+	// which of the shared responses carry JSON, and whether any inline JSON response exists,
+	// decides which helpers the generated files need
+	for mask := 0; mask < 8; mask++ {
+		for _, inlineJSON := range []bool{false, true} {
+			mask, inlineJSON := mask, inlineJSON
+			add(fmt.Sprintf("responses/components-json-mask-%d-inline-json-%v", mask, inlineJSON), false, func(d *Doc) {
+				names := []string{"Conflict", "NotFound", "Unauthorized"}
+				d.Components = &Components{Responses: map[string]*Response{}}
+				for i, n := range names {
+					r := &Response{Description: Str(n)}
+					if mask&(1<<i) != 0 {
+						r.Content = JSONContent(&Schema{Type: "object", Properties: map[string]*Schema{"message": {Type: "string"}}})
+					} else {
+						r.Headers = map[string]*Header{"X-Why": {Schema: &Schema{Type: "string"}}}
+					}
+					d.Components.Responses[n] = r
+				}
+				ok := &Response{Description: Str("ok")}
+				if inlineJSON {
+					ok.Content = JSONContent(&Schema{Type: "integer"})
+				}
+				opAt(d, "/x", "GET").Responses = map[string]*Response{"200": ok, "409": {Ref: RefResponses + "Conflict"}, "404": {Ref: RefResponses + "NotFound"}, "401": {Ref: RefResponses + "Unauthorized"}}
+			})
+		}
+	}
 	add("responses/component-default-and-numbered", true, func(d *Doc) {
 		d.Components = &Components{Responses: map[string]*Response{"Err": {Description: Str("e")}}}
 		opAt(d, "/x", "GET").Responses = map[string]*Response{"default": {Ref: RefResponses + "Err"}}
